@@ -78,10 +78,7 @@ func (m *impl) snapshot() string {
 			panic(err)
 		}
 		if !st.IsDir() {
-			b, err := io.ReadAll(f)
-			if err != nil {
-				panic(err)
-			}
+			b := readAll(f)
 			ents[p] = "f:" + vu.Hex(b)
 			return
 		}
@@ -465,7 +462,8 @@ func exec(ops []string, o *vu.Out) {
 		same := res == ro
 		var sm, so string
 		if same && t[0] != "snap" && t[0] != "stat" && t[0] != "fstat" {
-			sm, so = m.snapshot(), shadow.snapshot()
+			sm = vu.Catch(func() string { return m.snapshot() })
+			so = vu.Catch(func() string { return shadow.snapshot() })
 			same = sm == so
 			// unlinked files are visible only through their handles: compare sizes
 			for k := 0; same && k < len(m.slots) && k < len(shadow.slots); k++ {
@@ -488,6 +486,28 @@ func exec(ops []string, o *vu.Out) {
 			continue
 		}
 		o.Fail(sig, fmt.Sprintf("op %q: memFS %q, Dir %q; trees after: memFS {%s} Dir {%s}", op, res, ro, sm, so))
+	}
+}
+
+// readAll is io.ReadAll with a guard against a Read that returns (0, nil) forever.
+func readAll(f io.Reader) []byte {
+	var out []byte
+	buf := make([]byte, 512)
+	stalls := 0
+	for {
+		n, err := f.Read(buf)
+		out = append(out, buf[:n]...)
+		if err == io.EOF {
+			return out
+		}
+		if err != nil {
+			panic(err)
+		}
+		if n == 0 {
+			if stalls++; stalls > 2 {
+				panic("Read keeps returning (0, nil)")
+			}
+		}
 	}
 }
 
